@@ -189,7 +189,13 @@ class AWSElastiCacheHashClient(HashClient):
             Each tuple has the format (address: str, port: int).
         """
         addr, port = self._cfg_node.rsplit(":", maxsplit=1)
-        client = Client((addr, port), **self.default_kwargs)
+        # default_kwargs carries the pool options when use_pooling is set
+        client_kwargs = {
+            k: v
+            for k, v in self.default_kwargs.items()
+            if k not in ("max_pool_size", "pool_idle_timeout", "lock_generator")
+        }
+        client = Client((addr, port), **client_kwargs)
 
         # https://docs.aws.amazon.com/AmazonElastiCache/latest/mem-ug/AutoDiscovery.AddingToYourClientLibrary.html
         try:
